@@ -41,6 +41,7 @@ struct Outcome {
 
 std::string g_errfile;
 int g_cpu_limit = 20, g_wall_limit = 300;
+long g_max_shrink = 1200;   // bound on shrink steps (each is a forked execution); the current best is kept when it is hit
 
 std::string slurp(const std::string &path) {
     std::ifstream f(path, std::ios::binary);
@@ -176,7 +177,7 @@ int usage() { fprintf(stderr, "usage: see engine/pbt/driver.cpp\n"); return 3; }
 int main(int argc, char **argv) {
     std::string mode, prop, tierS = "quick", out, replayDir = ".", replayFile;
     uint64_t seed = 1; int cases = 100, maxSize = 100;
-    std::vector<std::string> known;
+    std::vector<std::string> known, foreign;
     for (int i = 1; i < argc; ++i) {
         std::string a = argv[i];
         auto next = [&]() -> std::string { if (i + 1 >= argc) { usage(); _exit(3); } return argv[++i]; };
@@ -190,7 +191,9 @@ int main(int argc, char **argv) {
         else if (a == "--out") out = next();
         else if (a == "--replay-dir") replayDir = next();
         else if (a == "--known") known.push_back(next());
+        else if (a == "--foreign") foreign.push_back(next());
         else if (a == "--cpu-limit") g_cpu_limit = atoi(next().c_str());
+        else if (a == "--max-shrink") g_max_shrink = atol(next().c_str());
         else if (a == "--props") { printf("%s\n", exec_props); return 0; }
         else return usage();
     }
@@ -231,12 +234,15 @@ int main(int argc, char **argv) {
     bool ok = rc::check(prop, [&] {
         Case c = *gen;
         c.prop = prop;
+        if (failing && st.shrink_evals >= g_max_shrink) return;   // stop shrinking: reject every further candidate
         Outcome o = run_forked(c);
         if (failing) ++st.shrink_evals; else ++st.evaluations;
         if (o.kind == Outcome::TIMEOUT) { ++st.timeouts; return; }           // inconclusive, never a violation
         if (o.kind == Outcome::INTERNAL) { ++st.internal; fprintf(stderr, "INTERNAL: %s\n", o.msg.c_str()); return; }
         if (o.kind == Outcome::VIOL) {
             for (auto &k : known) if (sig_matches(o.cls, k)) { ++st.known_hits; ++st.known_by_sig[k]; return; }
+            // a failure class that belongs to another property's oracle: counted, reported by that property's check
+            for (auto &k : foreign) if (sig_matches(o.cls, k)) { ++st.labels["foreign_" + k]; return; }
             failing = true; haveFail = true; lastFail = c; lastOut = o;
             RC_FAIL(o.cls + " " + o.msg);
         }
